@@ -352,6 +352,45 @@ pub fn run_c17(run: &mut Run) -> anyhow::Result<()> {
             run.op(format!("codegen.server decodable={} handler={handler}", decodable as u8), format!("status={} invoked={invoked}", resp.status().to_u16()), true);
         }
     }
+    // the same for the JSON codec, with every way a JSON payload can fail to be exactly one message
+    {
+        let valid = serde_json::to_vec(&Msg { id: 11, via: "j".into(), instr: Instr::Reply })?;
+        let mut classes: Vec<(&str, Vec<u8>, bool)> = vec![("valid", valid.clone(), true)];
+        classes.push(("trailing-whitespace", [valid.clone(), b" \n".to_vec()].concat(), true));
+        classes.push(("garbage", b"\xff\xfegarbage".to_vec(), false));
+        classes.push(("empty", vec![], false));
+        classes.push(("truncated", valid[..valid.len() - 1].to_vec(), false));
+        classes.push(("trailing-junk", [valid.clone(), b"junk".to_vec()].concat(), false));
+        classes.push(("two-values", [valid.clone(), valid.clone()].concat(), false));
+        classes.push(("wrong-type", b"[1,2,3]".to_vec(), false));
+        for (name, bytes, decodable) in classes {
+            for st in [200u16, 404, 500] {
+                let res = rt.block_on(beta::beta_client::BetaClient::new(Fixed(st, Bytes::from(bytes.clone()))).m_one(Msg { id: 1, via: String::new(), instr: Instr::Reply }));
+                let out = match &res {
+                    Ok(_) => "ok".to_string(),
+                    Err(s) => format!("err:{}", s.status().to_u16()),
+                };
+                if res.is_ok() && !(st == 200 && decodable) {
+                    run.oracle_fail(json!({"kind": "wrong-typed success: client returned Ok for a non-success status or an undecodable body", "codec": "json", "payload": name, "status": st}));
+                }
+                run.count("json-payload-client", name);
+                run.op(format!("codegen.client status={st} decodable={}", decodable as u8), out, true);
+            }
+            let before = h.0.lock().unwrap().len();
+            let resp = rt.block_on(async {
+                let mut r = router.clone();
+                r.call(Request::new(Bytes::from(bytes.clone())).with_route("/pkg.sub.Beta/One")).await.unwrap()
+            });
+            let invoked = h.0.lock().unwrap().len() - before;
+            if !decodable && (invoked != 0 || resp.status().is_success()) {
+                run.oracle_fail(json!({"kind": "undecodable request reached the handler or was answered with success", "codec": "json", "payload": name, "invoked": invoked, "status": resp.status().to_u16()}));
+            }
+            if decodable && (invoked != 1 || !resp.status().is_success()) {
+                run.oracle_fail(json!({"kind": "a decodable request did not reach the handler exactly once", "codec": "json", "payload": name, "invoked": invoked, "status": resp.status().to_u16()}));
+            }
+            run.op(format!("codegen.server decodable={} handler=ok", decodable as u8), format!("status={} invoked={invoked}", resp.status().to_u16()), true);
+        }
+    }
     // recorded, not claimed: Err(Status) with a success code
     {
         let msg = Msg { id: 424242, via: String::new(), instr: Instr::Fail { code: 200, message: Some("odd".into()), headers: vec![] } };
